@@ -105,8 +105,10 @@ def run(module, cfg, workers=None, timeout=1800, simulate=None, depth=None,
 
 
 def _is_violation(err):
-    return ("is violated" in err) or ("Action property" in err) or \
-        ("Temporal properties were violated" in err) or ("Deadlock reached" in err)
+    if ("is violated" in err) or ("Temporal properties were violated" in err) or ("Deadlock reached" in err):
+        return True
+    # explanatory lines that follow a violation report
+    return ("The behavior up to this point" in err) or ("counterexample" in err.lower())
 
 
 _tagre = re.compile(r'^"@([A-Za-z0-9_]+)@')
